@@ -1,5 +1,5 @@
 (** Single entry point of the extracted model: request -> answer. *)
-From Physt Require Import Sx Merge Calc1D CalcND Fill ArithCases ScaleCases Project Index.
+From Physt Require Import Sx Merge Calc1D CalcND Fill ArithCases ScaleCases Project Index StatsCases.
 
 Definition run (req : sx) : sx :=
   match req with
@@ -12,6 +12,7 @@ Definition run (req : sx) : sx :=
   | LL [SS "C06"; c; o] => judge_C06 c o
   | LL [SS "C09"; c; o] => judge_C09 c o
   | LL [SS "C11"; c; o] => judge_C11 c o
+  | LL [SS "C14"; c; o] => judge_C14 c o
   | LL [SS "C10"; c; o] => judge_C10 c o
   | LL [SS "sumq"; l] => match d_list d_q l with Some qs => QQ (sumq qs) | None => illformed end
   | _ => SS "unknown-request"
